@@ -36,6 +36,8 @@ pub struct Universe {
     /// for each import kind: the interface id wac attaches to it (Some for instance kinds
     /// taken from a package import/export named like an interface)
     pub import_kind_iface_id: Vec<Option<String>>,
+    /// for each import kind taken from a package import: (package, import name)
+    pub import_kind_origin: Vec<Option<(usize, String)>>,
     /// (import name, kind) pairs not generated in-process because they are known to abort
     /// the process (stack overflow); they are run in supervised subprocesses instead
     pub isolated_imports: Vec<(String, usize)>,
@@ -88,6 +90,7 @@ impl Universe {
             check_encode: true,
             dependency_imports: BTreeSet::new(),
             import_kind_iface_id: vec![],
+            import_kind_origin: vec![],
             isolated_imports: vec![],
             collect_histories: false,
         }
@@ -98,6 +101,7 @@ impl Universe {
         let world = &self.base.types()[self.packages[p].ty()];
         self.import_item_kinds.push(world.imports[name]);
         self.import_kinds.push(self.pkgs[p].import(name).unwrap().clone());
+        self.import_kind_origin.push(Some((p, name.to_string())));
         self.import_kind_iface_id.push(match world.imports[name] {
             ItemKind::Instance(id) => self.base.types()[id].id.clone(),
             _ => None,
@@ -107,6 +111,7 @@ impl Universe {
         let world = &self.base.types()[self.packages[p].ty()];
         self.import_item_kinds.push(world.exports[name]);
         self.import_kinds.push(self.pkgs[p].exports.iter().find(|(n, _)| n == name).unwrap().1.clone());
+        self.import_kind_origin.push(None);
         self.import_kind_iface_id.push(match world.exports[name] {
             ItemKind::Instance(id) => self.base.types()[id].id.clone(),
             _ => None,
